@@ -85,6 +85,8 @@ def _check_tree(B, tree, rows, d, queries, fails, tag):
 def evaluate(case):
     from spatialpandas.spatialindex import HilbertRtree
     d, rows, queries = case['d'], case['rows'], case['queries']
+    # larger inputs without more generated data: a run of undefined rows in front and the drawn rows repeated
+    rows = [None] * case.get('nan_prefix', 0) + [r if r is None else list(r) for _ in range(case.get('tile', 1)) for r in rows]
     for q in queries:
         if any(q[k] > q[d + k] for k in range(d)):
             return outcome(rejected=True)
@@ -92,7 +94,11 @@ def evaluate(case):
     fails = []
     b = _bounds(rows, d)
     n = len(rows)
-    labels = [f'd{d}', 'n0' if n == 0 else ('n1' if n == 1 else ('n<=8' if n <= 8 else 'n>8'))]
+    labels = [f'd{d}', 'n0' if n == 0 else ('n1' if n == 1 else ('n<=8' if n <= 8 else ('n>8' if n <= 255 else 'n>255')))]
+    if case.get('pickle'):
+        labels.append('pickled')
+    if case.get('nan_prefix', 0) > 255:
+        labels.append('nan-prefix>255')
     nt = any(not _defined(r) for r in rows)
     if any(r is not None and not _defined(r) for r in rows):
         labels.append('half-defined-rows')
@@ -117,6 +123,11 @@ def evaluate(case):
                 labels.append('pages-not-pow2')
         tree = lib(B + ['build'], HilbertRtree, b.copy(), p, ps)
         _check_tree(B, tree, rows, d, queries, fails, f'p={p} page_size={ps}')
+        if case.get('pickle'):
+            # the index after a pickle round trip (how it travels between Dask workers) is the same index
+            import pickle
+            t2 = lib(B + ['pickle'], lambda: pickle.loads(pickle.dumps(tree)))
+            _check_tree(B + ['pickled'], t2, rows, d, queries, fails, f'pickled p={p} page_size={ps}')
     if d == 2 and case.get('via_array') and rows and all(r is None or _defined(r) for r in rows):
         els = [None if r is None else [r[0], r[1], r[2], r[3]] for r in rows]
         if case['via_array'] == 'empty':
@@ -185,7 +196,10 @@ def _case(draw):
         b = a if mode == 'degenerate' else [draw(qcoord) for _ in range(d)]
         qs.append([min(x, y) for x, y in zip(a, b)] + [max(x, y) for x, y in zip(a, b)])
     via = draw(st.sampled_from([None, None, 'missing', 'empty'])) if d == 2 else None
-    return {'d': d, 'rows': rows, 'configs': configs, 'queries': qs, 'via_array': via}
+    nan_prefix = draw(st.one_of(st.just(0), st.just(0), st.just(0), st.integers(1, 5), st.integers(200, 700)))
+    tile = draw(st.one_of(st.just(1), st.just(1), st.just(1), st.integers(2, 12)))
+    return {'d': d, 'rows': rows, 'configs': configs, 'queries': qs, 'via_array': via, 'nan_prefix': nan_prefix, 'tile': tile,
+            'pickle': draw(st.booleans())}
 
 
 def strategy(tier):
